@@ -94,3 +94,77 @@ package xslices
 //@   loop 0: invariant forall t int {out[t]} :: 0 <= t && t < idx0 ==> out[t] == s[t*chunkSize : min((t+1)*chunkSize, len(s))]
 //@   ensures fresh(result) && len(result) * chunkSize >= len(s) && (len(result) - 1) * chunkSize < len(s) && (len(s) == 0 ==> len(result) == 0)
 //@   ensures forall t int {result[t]} :: 0 <= t && t < len(result) ==> result[t] == s[t*chunkSize : min((t+1)*chunkSize, len(s))]
+
+// ---- Join, Count ----
+
+//@ ufun plen(in, i) int
+//@ axiom plen(in, 0) == 0
+//@ axiom forall i int {plen(in, i)} :: 0 < i ==> plen(in, i) == plen(in, i-1) + len(in[i-1])
+
+//@ func Join
+//@   props C19
+//@   loop 0: invariant n == plen(in, idx0) && n >= 0
+//@   loop 1: invariant len(out) == plen(in, idx1) && fresh(out)
+//@   loop 1: invariant forall i int {plen(in, i)} :: 0 <= i && i < idx1 ==> 0 <= plen(in, i) && plen(in, i) + len(in[i]) <= plen(in, idx1)
+//@   loop 1: invariant forall i int, t int {in[i][t]} :: 0 <= i && i < idx1 && 0 <= t && t < len(in[i]) ==> out[plen(in, i) + t] == in[i][t]
+//@   ensures len(result) == plen(in, len(in)) && fresh(result)
+//@   ensures forall i int, t int {in[i][t]} :: 0 <= i && i < len(in) && 0 <= t && t < len(in[i]) ==> result[plen(in, i) + t] == in[i][t]
+
+//@ ufun cnt(f, s, hi) int
+//@ axiom cnt(f, s, 0) == 0
+//@ axiom forall hi int {cnt(f, s, hi)} :: 0 < hi ==> cnt(f, s, hi) == cnt(f, s, hi-1) + (f(s[hi-1]) ? 1 : 0)
+
+//@ func CountFunc
+//@   props C19
+//@   requires f != nil
+//@   loop 0: invariant n == cnt(f, old(s), idx0)
+//@   ensures result == cnt(f, s, len(s))
+
+//@ ufun cntEq(s, x, hi) int
+//@ axiom cntEq(s, x, 0) == 0
+//@ axiom forall hi int {cntEq(s, x, hi)} :: 0 < hi ==> cntEq(s, x, hi) == cntEq(s, x, hi-1) + (s[hi-1] == x ? 1 : 0)
+
+//@ func Count
+//@   props C19
+//@   inlinecall CountFunc
+//@   loop CountFunc.0: invariant n == cntEq(old(s), x, idx0)
+//@   ensures result == cntEq(s, x, len(s))
+
+// ---- RemoveUnordered ----
+
+//@ func RemoveUnordered
+//@   props C19
+//@   requires 0 <= idx && 0 <= n && idx + n <= len(s)
+//@   modifies elems(s)
+//@   ensures result == s[:len(s)-n]
+//@   ensures forall t int {s[t]} :: 0 <= t && t < idx ==> s[t] == old(s[t])
+//@   ensures let ks = (idx + n > len(s) - n ? idx + n : len(s) - n) in
+//@       (forall t int {s[t]} :: idx <= t && t < idx + len(s) - ks ==> s[t] == old(s[ks + t - idx]))
+//@       && (forall t int {s[t]} :: idx + len(s) - ks <= t && t < len(s) - n ==> s[t] == old(s[t]))
+//@   ensures forall t int {s[t]} :: len(s) - n <= t && t < len(s) ==> s[t] == zero(T)
+//@   ensures forall k int {row(s)[k]} :: k < off(s) || k >= off(s) + len(s) ==> row(s)[k] == old(row(s)[k])
+
+// ---- Partition ----
+
+//@ func Partition
+//@   props C19
+//@   requires f != nil
+//@   modifies elems(s)
+//@   ghostinit p := lambda k int :: k
+//@   ghostinit q := lambda k int :: k
+//@   loop 0: ghost p := store(store(p, i-1, p[j+1]), j+1, p[i-1])
+//@   loop 0: ghost q := store(store(q, p[i-1], i-1), p[j+1], j+1)
+//@   loop 0: invariant 0 <= i && i <= len(s) && -1 <= j && j < len(s) && i <= j + 2 && (len(s) == 0 ==> i == 0)
+//@   loop 0: invariant forall t int {s[t]} :: 0 <= t && t < i ==> !f(s[t])
+//@   loop 0: invariant forall t int {s[t]} :: j < t && t < len(s) ==> f(s[t])
+//@   loop 0: invariant forall k int {p[k]} :: 0 <= k && k < len(s) ==> 0 <= p[k] && p[k] < len(s) && s[k] == old(s[p[k]]) && q[p[k]] == k
+//@   loop 0: invariant forall m int {q[m]} :: 0 <= m && m < len(s) ==> 0 <= q[m] && q[m] < len(s) && p[q[m]] == m
+//@   loop 0: invariant forall k int {row(s)[k]} :: k < off(s) || k >= off(s) + len(s) ==> row(s)[k] == old(row(s)[k])
+//@   loop 1: invariant 0 <= i && i <= len(s) && (forall t int {s[t]} :: 0 <= t && t < i ==> !f(s[t])) && (i > j ==> i <= j + 2)
+//@   loop 2: invariant -1 <= j && j < len(s) && (forall t int {s[t]} :: j < t && t < len(s) ==> f(s[t])) && (j >= i - 2 || j > i)
+//@   ensures 0 <= result && result <= len(s)
+//@   ensures forall t int {s[t]} :: 0 <= t && t < result ==> !f(s[t])
+//@   ensures forall t int {s[t]} :: result <= t && t < len(s) ==> f(s[t])
+//@   ensures forall k int {p[k]} :: 0 <= k && k < len(s) ==> 0 <= p[k] && p[k] < len(s) && s[k] == old(s[p[k]]) && q[p[k]] == k
+//@   ensures forall m int {q[m]} :: 0 <= m && m < len(s) ==> 0 <= q[m] && q[m] < len(s) && p[q[m]] == m
+//@   ensures forall k int {row(s)[k]} :: k < off(s) || k >= off(s) + len(s) ==> row(s)[k] == old(row(s)[k])
